@@ -15,6 +15,7 @@ import (
 	"github.com/dave/dst/decorator"
 	"github.com/dave/dst/decorator/resolver/goast"
 	"github.com/dave/dst/decorator/resolver/gotypes"
+	"github.com/dave/dst/decorator/resolver/guess"
 	"github.com/dave/dst/decorator/resolver/simple"
 	"golang.org/x/tools/go/packages"
 
@@ -352,7 +353,11 @@ func c09Goast(c *fw.Ctx, label string, fset *token.FileSet, af *ast.File, info *
 			dupName = true
 		}
 	}
+	// the exact name table through either of the two map-backed resolvers
 	gres := goast.WithResolver(simple.New(full))
+	if len(label)%2 == 0 {
+		gres = goast.WithResolver(guess.WithMap(full))
+	}
 	d := decorator.NewDecoratorWithImports(fset, "ex.com/self-goast", gres)
 	df, err := d.DecorateFile(af)
 	if (hasDot || dupName) && err != nil {
